@@ -124,6 +124,9 @@ func (c ColStr) ForEachBytes(f func(i int, b []byte) error) error {
 	return nil
 }
 
+// maxStrBatchRows limits the rows for which DecodeColumn allocates ahead.
+const maxStrBatchRows = 1 << 16
+
 // DecodeColumn decodes String rows from *Reader.
 func (c *ColStr) DecodeColumn(r *Reader, rows int) error {
 	var p Position
@@ -145,8 +148,9 @@ func (c *ColStr) DecodeColumn(r *Reader, rows int) error {
 		if len(c.Buf) < p.End {
 			var an int
 			if n < 128 {
-				// small size, do batch buffer alloc
-				an = n * (rows - i)
+				// small size, do batch buffer alloc; for a bounded number of
+				// rows, as the row count comes from the wire
+				an = n * min(rows-i, maxStrBatchRows)
 			} else {
 				an = n
 			}
